@@ -245,7 +245,8 @@ def tlc(module, cfg, env, workers=None, tag="tlc", timeout=3600, simulate=None, 
     ok = rc == 0 or (simulate and rc in (0,))
     if not ok:
         tail = "".join(other[-40:])
-        raise ToolError("TLC failed on %s (rc=%s):\n%s" % (module, rc, tail))
+        errs = "".join(x for x in other if x.startswith("Error:"))[:1500]
+        raise ToolError("TLC failed on %s (rc=%s):\n%s\n...\n%s" % (module, rc, errs, tail[-3000:]))
     shutil.rmtree(meta, ignore_errors=True)
     return lines, stats
 
@@ -2143,7 +2144,12 @@ def check_c19(ctx):
                 continue
             back = ok.get("back", {})
             if "err" in back:
-                viol(v, "fromBytes_of_toBytes_throws", back)
+                if v.get("javareject"):
+                    # the Java API binding (PdlInherit.JavaOutcomes) admits a rejection of these octets: a parent-level
+                    # value whose fields select a child that its payload does not parse as
+                    rep.notes["roundtrips_rejected_by_dispatch"] = rep.notes.get("roundtrips_rejected_by_dispatch", 0) + 1
+                else:
+                    viol(v, "fromBytes_of_toBytes_throws", back)
             elif not back.get("equals") and back.get("cls") == ok.get("cls"):
                 # (a parent-level value whose payload happens to parse as a child comes back as that child:
                 # dispatch is judged by the javaparse vectors, not here)
@@ -3450,7 +3456,7 @@ def main():
         try:
             return CHECKS[a.prop](ctx)
         except ToolError as e:
-            print("TOOL-ERROR: " + str(e)[-6000:], file=sys.stderr)
+            print("TOOL-ERROR: " + str(e)[:8000], file=sys.stderr)
             return 2
         finally:
             ctx.cleanup()
